@@ -725,6 +725,10 @@ def run(ctx):
                 if HS.admissible(name, p, cks[0]):
                     small.append({"part": "ctx", "context": cname, "scheme": name, "settings": None, "ctxkw": cks[0], "password": p,
                                   "via": "context", "seed": ctx.seed, "n": pi})
+            if name in HS.PLAINTEXT and HS.admissible(name, "L" * 1100, cks[0]):
+                # a catch-all scheme's "hash" is as long as the password: one of 1100 characters
+                small.append({"part": "ctx", "context": cname, "scheme": name, "settings": None, "ctxkw": cks[0], "password": "L" * 1100,
+                              "via": "context", "seed": ctx.seed, "n": 7})
             if not ctx.quick:
                 # thorough: also at the production cost the context configures (one password, no wrong-password probes)
                 small.append({"part": "ctx", "context": cname, "scheme": name, "settings": None, "ctxkw": cks[0], "password": PASSWORDS[0],
